@@ -72,16 +72,16 @@ package exif2
 //@ pool bufferPool *buffer
 
 //@ func (*ifdReader).fastRead
-//@   props C01 C02 C08 C06 C03
+//@   props C01 C02 C08 C06 C03 C04
 //@   requires irOK(ir) && n >= 0
 //@   modifies ir.po, stream(ir.reader), ir.buffer.buf
 //@   ensures [C06] anchor(ir) == old(anchor(ir))
 //@   ensures [C02 C08] err == nil ==> pos(ir.reader) == old(pos(ir.reader)) + n
 //@   ensures [C02] pos(ir.reader) >= old(pos(ir.reader))
 //@   ensures [C01 C08] err == nil ==> len(buf) == n
-//@   ensures [C03 C08] err == nil ==> forall k int :: 0 <= k && k < n ==> buf[k] == data(ir.reader, old(pos(ir.reader)) + k)
+//@   ensures [C03 C04 C08] err == nil ==> forall k int :: 0 <= k && k < n ==> buf[k] == data(ir.reader, old(pos(ir.reader)) + k)
 //@   ensures [C03] err == nil ==> ir.po == old(ir.po) + uint32(n)
-//@   ensures [C03] err != nil ==> forall k int :: 0 <= k && k < len(buf) ==> buf[k] == data(ir.reader, pos(ir.reader) + k)
+//@   ensures [C03 C04] err != nil ==> forall k int :: 0 <= k && k < len(buf) ==> buf[k] == data(ir.reader, pos(ir.reader) + k)
 
 //@ func (*ifdReader).discard
 //@   props C01 C02 C08 C06 C03
@@ -96,15 +96,18 @@ package exif2
 //@   loop 0 invariant anchor(ir) == old(anchor(ir))
 
 //@ func (*ifdReader).readTagValue
-//@   props C01 C02 C06 C03
+//@   props C01 C02 C06 C03 C04
 //@   requires irOK(ir) && ir.buffer.pos < 84
 //@   modifies ir.po, stream(ir.reader), ir.buffer.buf
 //@   ensures [C06] anchor(ir) == old(anchor(ir))
 //@   ensures [C02] err == nil ==> pos(ir.reader) >= old(pos(ir.reader)) + len(buf)
 //@   ensures [C02] pos(ir.reader) >= old(pos(ir.reader))
 //@   ensures [C01] err == nil ==> len(buf) == int(ir.buffer.tag[ir.buffer.pos].Size())
-//@   ensures [C03] err == nil ==> forall k int :: 0 <= k && k < len(buf) ==> buf[k] == data(ir.reader, pos(ir.reader) - len(buf) + k)
-//@   ensures [C03] err != nil ==> forall k int :: 0 <= k && k < len(buf) ==> buf[k] == data(ir.reader, pos(ir.reader) + k)
+// C04: the pending-tag slots beyond len hold what an earlier decode left in the pooled buffer; without a pending tag nothing
+// is looked up there and nothing is consumed
+//@   ensures [C04] old(ir.buffer.pos >= ir.buffer.len) ==> err != nil && pos(ir.reader) == old(pos(ir.reader)) && ir.po == old(ir.po)
+//@   ensures [C03 C04] err == nil ==> forall k int :: 0 <= k && k < len(buf) ==> buf[k] == data(ir.reader, pos(ir.reader) - len(buf) + k)
+//@   ensures [C03 C04] err != nil ==> forall k int :: 0 <= k && k < len(buf) ==> buf[k] == data(ir.reader, pos(ir.reader) + k)
 //@   ensures [C03] err == nil && ir.buffer.tag[ir.buffer.pos].ValueOffset >= old(ir.po) && ir.buffer.tag[ir.buffer.pos].ValueOffset <= ir.exifLength ==> ir.po == ir.buffer.tag[ir.buffer.pos].ValueOffset + uint32(len(buf))
 
 //@ func (*ifdReader).seekToTag
@@ -207,21 +210,21 @@ package exif2
 //@ spec vstart(ir, t) = pos(ir.reader) - int(t.Size())
 
 //@ func (*ifdReader).ParseString
-//@   props C01 C02 C06 C03
+//@   props C01 C02 C06 C03 C04
 //@   requires tagPre(ir, t)
 //@   modifies ir.po, stream(ir.reader), ir.buffer.buf
 //@   ensures [C06] anchor(ir) == old(anchor(ir))
 //@   ensures [C02] pos(ir.reader) >= old(pos(ir.reader))
-//@   ensures [C03] isAsciiOut(t) ==> (forall k int :: 0 <= k && k < len(r0) ==> r0[k] == data(ir.reader, vstart(ir, t) + k)) || (forall k int :: 0 <= k && k < len(r0) ==> r0[k] == data(ir.reader, pos(ir.reader) + k))
+//@   ensures [C03 C04] isAsciiOut(t) ==> (forall k int :: 0 <= k && k < len(r0) ==> r0[k] == data(ir.reader, vstart(ir, t) + k)) || (forall k int :: 0 <= k && k < len(r0) ==> r0[k] == data(ir.reader, pos(ir.reader) + k))
 //@   ensures [C03] isAsciiOut(t) && len(r0) > 0 ==> !isTrim(r0[len(r0)-1])
 
 //@ func (*ifdReader).ParseBuffer
-//@   props C01 C02 C06 C03
+//@   props C01 C02 C06 C03 C04
 //@   requires tagPre(ir, t)
 //@   modifies ir.po, stream(ir.reader), ir.buffer.buf
 //@   ensures [C06] anchor(ir) == old(anchor(ir))
 //@   ensures [C02] pos(ir.reader) >= old(pos(ir.reader))
-//@   ensures [C03] isAsciiOut(t) ==> forall k int :: 0 <= k && k < len(r0) ==> r0[k] == data(ir.reader, vstart(ir, t) + k)
+//@   ensures [C03 C04] isAsciiOut(t) ==> forall k int :: 0 <= k && k < len(r0) ==> r0[k] == data(ir.reader, vstart(ir, t) + k)
 //@   ensures [C03] isAsciiOut(t) && len(r0) > 0 ==> len(r0) <= int(t.Size()) && !isTrim(r0[len(r0)-1])
 //@   ensures [C03] isAsciiOut(t) && len(r0) > 0 ==> forall k int :: len(r0) <= k && k < int(t.Size()) ==> isTrim(data(ir.reader, vstart(ir, t) + k))
 
@@ -445,7 +448,7 @@ package exif2
 //@   loop 0 invariant anchor(ir) == old(anchor(ir))
 
 //@ func (*ifdReader).ResetReader
-//@   props C01
+//@   props C01 C04
 //@   requires ir.buffer != nil && r != nil
 //@   modifies ir.reader, ir.buffer.len, ir.buffer.pos, ir.po
 //@   ensures irOK(ir) && ir.buffer.pos == 0 && ir.buffer.len == 0 && ir.reader == r && ir.po == 0
